@@ -254,6 +254,9 @@ Definition builtin (f : string) (args : list val) : option val :=
   | "array_intersect", [VArr a; VArr b] => Some (VArr (arr_intersect a b))
   | "least", [a; b] => match val_le a b with Some true => Some a | Some false => Some b | None => None end
   | "lower", [VStr a] => Some (VStr (lower_string a))
+  | "substring", [VStr a; VInt st; VInt ln] =>
+    if (Z.leb 1 st && Z.leb 0 ln)%bool then Some (VStr (String.substring (Z.to_nat (st - 1)) (Z.to_nat ln) a)) else None
+  | "nullif", [a; b] => match val_eq a b with Some true => Some VNull | Some false => Some a | None => None end
   | "cast:float", [a] => match numQ a with Some q => Some (VNum q) | None => None end
   | "cast:real", [a] => match numQ a with Some q => Some (VNum q) | None => None end
   | "cast:double", [a] => match numQ a with Some q => Some (VNum q) | None => None end
